@@ -151,14 +151,14 @@ RESOLVER = {
             "random": [("general", 2500, 25000), ("multi", 2000, 20000), ("nosub", 1000, 10000), ("convert", 500, 6000)]},
     "C03": {"inv": ["C03"], "reps": (4, 10), "family": "C03", "random": [("general", 1500, 15000), ("wild", 1000, 10000)]},
     "C04": {"inv": ["C04"], "reps": (3, 6), "family": "C04", "life": True,
-            "random": [("fail", 3500, 35000), ("wild", 1000, 10000), ("redef", 300, 3000)]},
+            "random": [("fail", 3500, 35000), ("wild", 1000, 10000), ("redeffail", 600, 6000)]},
     "C05": {"inv": ["C05"], "reps": (5, 12), "family": "C05",
             "random": [("single", 2500, 25000), ("multi", 1500, 15000), ("general", 1000, 10000)]},
     "C06": {"inv": ["C06"], "reps": (3, 6), "family": "C06", "life": True,
             "random": [("wild", 3000, 30000), ("general", 1500, 15000), ("multi", 1000, 10000), ("redef", 500, 5000),
                        ("convert", 500, 5000)]},
     "C07": {"inv": ["C07"], "reps": (25, 100), "family": "C07", "random": [("general", 300, 3000)], "model": (200, 2000)},
-    "C08": {"inv": ["C08", "C01", "C04"], "minv": ["C08"], "reps": (3, 6), "family": "C08", "random": [("redef", 3000, 40000)]},
+    "C08": {"inv": ["C08", "C01", "C04", "C06"], "minv": ["C08"], "reps": (3, 6), "family": "C08", "random": [("redef", 2500, 30000), ("redeffail", 800, 10000)]},
     "C10": {"inv": ["C10", "C01", "C02", "C04", "C06"], "minv": ["C10"], "reps": (4, 8), "family": "none",
             "random": [("convcall", 3500, 35000), ("convert", 800, 8000)], "model": (600, 6000)},
     "C16": {"inv": ["C16", "C03"], "minv": ["C16"], "reps": (6, 12), "family": "C16", "random": [("wild", 800, 8000), ("general", 500, 5000)], "model": (300, 3000)},
